@@ -300,16 +300,20 @@ func (w *c07hWorld) apply(op c07hOp, seq bool) bool {
 
 // viol records a violation once per (class, subject) and world (see the registry-level harness).
 func (w *c07hWorld) viol(sig, opKind string, extra map[string]any) {
-	key := sig + fmt.Sprint(extra["conn"], extra["client_id"])
+	key := strings.SplitN(sig, "|dead=", 2)[0] + fmt.Sprint(extra["conn"], extra["client_id"])
 	if w.reported[key] {
 		return
 	}
 	w.reported[key] = true
-	d := map[string]any{"trace": w.tail()}
+	d := map[string]any{"trace": w.tail(), "first_seen_after": opKind, "class": sig}
 	for k, v := range extra {
 		d[k] = v
 	}
-	w.run.Violation(sig+"|op="+opKind, d)
+	if strings.Contains(sig, "dead") {
+		w.run.Violation(strings.SplitN(sig, "|dead=", 2)[0], d)
+		return
+	}
+	w.run.Violation(sig+"|op="+strings.TrimPrefix(opKind, "reap-after-"), d)
 }
 
 // check: the same invariants as at registry level, through the exported API.
